@@ -9,9 +9,13 @@
 (*   - _cell_preprocessor evaluates the cell's original method before it looks     *)
 (*     at the overrides (eager dict.get default) => the error of an overridden     *)
 (*     formula still surfaces                                                      *)
-(* Variant = "fixed": one pair per uid (newest wins), lazy default.                *)
+(* Variant = "eager_sizes": one pair per uid (newest wins), lazy default, but the  *)
+(*     loop of set_cells extends the sheet sizes cell by cell BEFORE a later        *)
+(*     invalid cell makes the call raise: a rejected call leaves its marks behind   *)
+(* Variant = "fixed": as above, and a call is validated as a whole before anything  *)
+(*     is changed.                                                                  *)
 (* lastw is a ghost variable (the ideal override map) used as refinement mapping.  *)
-EXTENDS Workbook4, TLC
+EXTENDS Workbook4, TLC, FiniteSets
 
 CONSTANTS WCoords, Values, MaxBatch, Variant
 
@@ -19,23 +23,31 @@ VARIABLES cells,     \* Executor._cells : set of <<coord, value>>
           args,      \* instance._arguments : coord -> value
           dirty,     \* Executor._cells_have_been_changed
           lastw,     \* ghost: ideal overrides
+          marks,     \* Executor._sheets_size, as the set of coordinates that have extended it (max() per cell)
           obs
 
-vars == <<cells, args, dirty, lastw, obs>>
+vars == <<cells, args, dirty, lastw, marks, obs>>
 Writes == WCoords \X Values
 Batches == UNION {[1..n -> Writes] : n \in 1..MaxBatch}
 Range(b) == {b[i] : i \in 1..Len(b)}
 
-Init == cells = {} /\ args = EmptyOv /\ dirty = FALSE /\ lastw = EmptyOv /\ obs = <<"nothing">>
+Init == cells = {} /\ args = EmptyOv /\ dirty = FALSE /\ lastw = EmptyOv /\ marks = {} /\ obs = <<"nothing">>
 
 LastPerCoord(b) == {b[i] : i \in {k \in 1..Len(b) : \A j \in (k+1)..Len(b) : b[j][1] # b[k][1]}}
 
 SetCells(b) ==
-  /\ cells' = IF Variant = "fixed"
+  /\ marks' = marks \cup {w[1] : w \in Range(b)}
+  /\ cells' = IF Variant \in {"fixed", "eager_sizes"}
               THEN {p \in cells : \A w \in Range(b) : w[1] # p[1]} \cup LastPerCoord(b)
               ELSE Range(b) \cup cells                               \* {*cells, *self._cells}
   /\ dirty' = TRUE /\ lastw' = Apply(lastw, b) /\ obs' = <<"set">>
   /\ UNCHANGED args
+
+\* set_cells with an invalid cell after the valid cells `pre`: handle_cell raises inside the loop
+RejectedSet(pre) ==
+  /\ marks' = IF Variant = "fixed" THEN marks ELSE marks \cup pre
+  /\ obs' = <<"rejected">>
+  /\ UNCHANGED <<cells, args, dirty, lastw>>
 
 \* set_arguments([cell.to_dict() for cell in self._cells]): dict built in iteration order of the set;
 \* for a coord that occurs with several values ANY of them may end up last
@@ -53,7 +65,7 @@ EvI(c, a) ==
                      [] f.op = "addk"  -> Arith("add", EvI(f.a, a), Num(f.b))
                      [] f.op = "mulk"  -> Arith("mul", EvI(f.a, a), Num(f.b))
                      [] f.op = "kdiv"  -> Arith("div", Num(f.a), EvI(f.b, a))
-  IN IF Variant = "fixed"
+  IN IF Variant \in {"fixed", "eager_sizes"}
      THEN (IF c \in DOMAIN a THEN OvVal(a[c]) ELSE orig)
      ELSE (IF orig.k = "err" THEN Err                      \* eager default: the exception escapes
            ELSE IF c \in DOMAIN a THEN OvVal(a[c]) ELSE orig)
@@ -64,12 +76,13 @@ Query(kind, arg) ==
     /\ args' = a /\ dirty' = FALSE
     /\ obs' = CASE kind = "get"   -> <<"get", arg, EvI(arg, a)>>
                 [] kind = "sheet" -> <<"sheet", arg,
-                     LET z == SizeOf(arg, lastw) IN     \* sizes are updated eagerly in set_cells with max()
+                     LET z == SizeOfDom(arg, marks) IN     \* sizes are updated eagerly in set_cells with max()
                      [r \in 1..z.rows |-> [c \in 1..z.cols |->
                         LET x == CoordAt(arg, c, r) IN IF x = "none" THEN Blank ELSE EvI(x, a)]]>>
-    /\ UNCHANGED <<cells, lastw>>
+    /\ UNCHANGED <<cells, lastw, marks>>
 
 Next == \/ \E b \in Batches : SetCells(b)
+        \/ \E pre \in {S \in SUBSET WCoords : Cardinality(S) < MaxBatch} : RejectedSet(pre)
         \/ \E c \in AllCoords : Query("get", c)
         \/ \E s \in Sheets : Query("sheet", s)
 
@@ -79,4 +92,6 @@ Ideal == INSTANCE Executor WITH ov <- lastw
 Refines == Ideal!Spec
 \* coherence invariant behind the refinement: once replayed, the instance arguments ARE the ideal overrides
 ArgsCoherent == ~dirty => args = lastw
+\* the reported sizes are those of the used range extended by the overrides in force
+MarksAreOverrides == marks = DOMAIN lastw
 =============================================================================
